@@ -454,11 +454,32 @@ def qd_wake_blocked(ctx):
                 # the predicate must be the liveness test
                 cl = [clean_ty(a['pl']['ty'])[9:-1] for a in t['args'] if a['k'] != 'const' and clean_ty(a['pl']['ty']).startswith('{closure:')]
                 live = False
+                wrong = None
                 for c in cl:
                     cf = F.fn(c)
                     if cf and any((tt['func'].get('fn') or '').endswith('Weak::strong_count') for _, tt in cf.calls()):
                         live = True
-                if live:
+                        # ... and the test is "somebody still holds it" (count > 0), nothing stricter: the waiter itself is one holder, and
+                        # between registering and handing a clone to its job it is the only one
+                        for b_ in cf.blocks:
+                            for s_ in b_['stmts']:
+                                if s_['k'] == 'assign' and s_['rv']['k'] == 'binop' and s_['rv']['op'] in ('Gt', 'Ge', 'Lt', 'Le', 'Ne', 'Eq'):
+                                    ea_, eb_ = cf.expr_of_operand(s_['rv']['a']), cf.expr_of_operand(s_['rv']['b'])
+                                    op_ = s_['rv']['op']
+                                    if eb_[0] == 'call' and eb_[1].endswith('strong_count') and ea_[0] == 'const':
+                                        ea_, eb_ = eb_, ea_
+                                        op_ = {'Gt': 'Lt', 'Lt': 'Gt', 'Ge': 'Le', 'Le': 'Ge'}.get(op_, op_)
+                                    if ea_[0] == 'call' and ea_[1].endswith('strong_count') and eb_[0] == 'const':
+                                        try:
+                                            cval = int(str(eb_[1]).split('_')[0])
+                                        except ValueError:
+                                            cval = None
+                                        if (op_, cval) not in (('Gt', 0), ('Ne', 0), ('Ge', 1)):
+                                            wrong = 'strong_count %s %s' % (op_, eb_[1])
+                if live and wrong:
+                    out.append(bad(R, key, 'waiters are pruned by `%s`, which is stricter than "nobody holds the condition variable any more": a caller that has registered but whose job does not hold its clone yet '
+                                   '(or no longer does) is struck off the list while it is still going to wait, and is not told when the queue is handed on' % wrong, loc=fn.loc(bb), fn=fn.name))
+                elif live:
                     out.append(ok(R, key, 'prunes only entries whose waiter is gone (strong_count)', loc=fn.loc(bb), fn=fn.name))
                 else:
                     out.append(bad(R, key, 'waiters are removed by a predicate other than "the waiter is gone"', loc=fn.loc(bb), fn=fn.name))
